@@ -797,6 +797,39 @@ func runC09(r *core.Run) {
 			r.Fail("result-differs-from-isolation", fmt.Sprintf("later-fetch/shared-%d", shape), "%s: after the calls above, an endorsed report fetched through the shared value gives accept=%v (%v), a fresh value gives accept=%v", where, g == nil, g, w == nil)
 		}
 	}
+	// a caller that decodes every report into ONE buffer: two endorsed reports in a row over the
+	// network through the shared validator, the second measurement written over the first in place
+	if shape != 2 {
+		buf := make([]byte, 48)
+		c := uint32(2)
+		if named != 0 {
+			c = named
+		}
+		// two firmwares, each endorsed by its own bucket object
+		first, second := is.Golden.SevSnp.Measurements[c], otherIs.Golden.SevSnp.Measurements[c]
+		prev, had := net.Objects[SnpURL(second)]
+		net.Objects[SnpURL(second)] = otherIs.Bytes
+		defer func() {
+			if had {
+				net.Objects[SnpURL(second)] = prev
+			} else {
+				delete(net.Objects, SnpURL(second))
+			}
+		}()
+		for step, m := range [][]byte{first, second, first} {
+			copy(buf, m)
+			at := SnpAttestation(nil, nil)
+			at.Report.Measurement = buf
+			hostChainInUse = false
+			f4 := newOpts()
+			w := verify.SNPValidateFunc(f4)(SnpAttestation(m, nil), nil)
+			g := sharedF(at, nil)
+			if (w == nil) != (g == nil) {
+				r.Fail("result-differs-from-isolation", fmt.Sprintf("reused-report-buffer/shared-%d", shape), "%s: report %d of a caller that reuses one measurement buffer gives accept=%v (%v) through the shared validator, accept=%v through a fresh one", where, step+1, g == nil, g, w == nil)
+			}
+		}
+		r.Probe("reused-report-buffer")
+	}
 	if shape == 2 {
 		// and one whose own endorsement is forged
 		bad := &c09Task{meas: is.Golden.SevSnp.Measurements[2], measClass: "endorsed", source: 0, blob: Reassemble(is.Golden, nil, AttackerKey(a, 1), 0), blobClass: "bad-signature"}
